@@ -239,13 +239,45 @@ func findFunctionCallViolation(
 	return nil
 }
 
+// testOnlyTypeIn returns the @testonly defined type that t is, points to, or is a slice, array,
+// channel or map of ([]T, ...T, map[K]*T, chan T use T as well); nil if there is none.
+// Struct, func and interface literals are not entered: their fields are visited on their own.
+func testOnlyTypeIn(ctx *testOnlyContext, t types.Type) *util.TypeInfo {
+	for depth := 0; t != nil && depth < 32; depth++ {
+		if info := util.ExtractTypeInfo(t); info != nil {
+			if ctx.testOnlyTypes.Contains(info.PkgPath, info.TypeName) {
+				return info
+			}
+			return nil
+		}
+		switch u := types.Unalias(t).(type) {
+		case *types.Pointer:
+			t = u.Elem()
+		case *types.Slice:
+			t = u.Elem()
+		case *types.Array:
+			t = u.Elem()
+		case *types.Chan:
+			t = u.Elem()
+		case *types.Map:
+			if info := testOnlyTypeIn(ctx, u.Key()); info != nil {
+				return info
+			}
+			t = u.Elem()
+		default:
+			return nil
+		}
+	}
+	return nil
+}
+
 // findTypeLiteralViolation checks composite literals for @testonly types
 // Returns violation or nil
 func findTypeLiteralViolation(
 	ctx *testOnlyContext,
 	node *ast.CompositeLit,
 ) *TestOnlyViolation {
-	typeInfo := util.ExtractTypeInfo(ctx.pass.TypesInfo.TypeOf(node))
+	typeInfo := testOnlyTypeIn(ctx, ctx.pass.TypesInfo.TypeOf(node))
 	if typeInfo == nil {
 		return nil
 	}
@@ -275,7 +307,7 @@ func findTypeUsageViolation(
 		return nil
 	}
 
-	typeInfo := util.ExtractTypeInfo(ctx.pass.TypesInfo.TypeOf(typeExpr))
+	typeInfo := testOnlyTypeIn(ctx, ctx.pass.TypesInfo.TypeOf(typeExpr))
 	if typeInfo == nil {
 		return nil
 	}
